@@ -228,7 +228,7 @@ def _worker(job):
         res = sh.pack()
         _CURRENT[0] = None
         return part, res, None
-    except Exception:
+    except BaseException:        # a dying worker would hang the pool
         return part, None, traceback.format_exc()
 
 
